@@ -44,9 +44,26 @@ class Project:
             self.cluster = cluster.FakeCluster(os.path.join(root, "cl"))
         if hashing:
             self.config["use_spec_hashes"] = True
+        self.intent = {}
         self.known_specs = {}
         self.stamp = BASE_T
         self.write()
+
+    def set_flag(self, key, value, rng=None):
+        """switch a boolean setting on or off — half of the time the way a user does it, with `gwf config set KEY yes|no|
+        true|false` (whatever gwf then stores is kept verbatim), otherwise by writing the JSON boolean"""
+        self.intent[key] = bool(value)
+        if rng is not None and rng.random() < 0.5:
+            self.write()
+            spelling = rng.choice(["yes", "true"] if value else ["no", "false"])
+            code, out, err = self.gwf(["config", "set", key, spelling])
+            if code != 0:
+                raise RuntimeError("gwf config set %s %s failed: %s" % (key, spelling, err[-200:]))
+            with open(os.path.join(self.dir, ".gwfconf.json")) as f:
+                self.config = json.load(f)
+        else:
+            self.config[key] = bool(value)
+            self.write()
 
     # --- files
     def write(self):
@@ -59,6 +76,9 @@ class Project:
 
     @property
     def hashing(self):
+        """what the user asked for (the model's view); the implementation reads its own stored value"""
+        if "use_spec_hashes" in self.intent:
+            return self.intent["use_spec_hashes"]
         return bool(self.config.get("use_spec_hashes"))
 
     def next_stamp(self):
@@ -297,7 +317,9 @@ def gen_cli_project(rng, nmax=6, hashing=None, spellings=True):
 
 def materialise_project(root, desc, rng, backend="slurm", p_present=0.6):
     targets = [{k: v for k, v in t.items() if not k.startswith("_")} for t in desc["targets"]]
-    proj = Project(root, targets, hashing=desc["hashing"], backend=backend)
+    proj = Project(root, targets, hashing=False, backend=backend)
+    if desc["hashing"] or rng.random() < 0.2:
+        proj.set_flag("use_spec_hashes", desc["hashing"], rng)       # incl. an explicit "no"
     for s in desc["sources"]:
         proj.put_file(s, stamp=BASE_T + rng.randint(1, 4))
     for t in desc["targets"]:
